@@ -46,6 +46,7 @@ import (
 	"github.com/titpetric/vuego"
 	"pgregory.net/rapid"
 
+	"verif/internal/compose"
 	"verif/internal/ev"
 	"verif/internal/hx"
 	"verif/internal/kf"
@@ -2112,6 +2113,9 @@ func enumPool(yield func(Case) bool) int {
 // ---------------------------------------------------------------------------------------------
 
 func replay(kind string, raw json.RawMessage) error {
+	if kind == compose.Kind {
+		return compose.Replay(raw)
+	}
 	return run.Decode(raw, check)
 }
 
@@ -2119,6 +2123,8 @@ func TestProp(t *testing.T) {
 	rec := ev.New(prop)
 	defer run.Finish(t, rec)
 	run.Witnesses(rec, prop, replay)
+	// cross-feature compositions checked against the shared reference interpreter
+	compose.Family(t, rec, "include", "prop", "shorthand", "collision")
 	known := kf.Load()
 
 	shard, shards := run.Shard()
